@@ -114,9 +114,11 @@ def generate(seed, tier):
         return {"arm": "flood", "hits": r.choice((70, 100, 140, 260)), "threads": r.choice((1, 1, 2)),
                 "collector": r.choice(("stalled", "stalled", "slow", "failing")), "kind": r.choice(("snapshot", "snaplog", "capture")),
                 "knobs": common.draw_knobs(r, stall_p=0.0)}
-    if r.random() < 0.04:
-        return {"arm": "hostlock", "kind": r.choice(("snapshot", "snaplog", "watch")), "order": r.choice(("b-first", "a-first")),
-                "knobs": common.draw_knobs(r, stall_p=0.0)}
+    if r.random() < 0.07:
+        kind = r.choice(("snapshot", "snaplog", "watch", "cond", "cond", "cond"))
+        return {"arm": "hostlock", "kind": kind, "order": r.choice(("b-first", "a-first")), "rounds": r.choice((2, 3, 5)),
+                "knobs": common.draw_knobs(r, stall_p=0.0, p_switch=r.choice((0.1, 0.3, 0.5))) if kind == "cond"
+                else common.draw_knobs(r, stall_p=0.0)}
     nthreads = r.choice((1, 1, 2, 3))
     pspec = {"seed": seed, "name": "simhost_%d" % (seed % 7), "nfuncs": r.randrange(2, 6),
              "offenders": r.random() < 0.6, "use_random": nthreads == 1 and r.random() < 0.5}
@@ -213,7 +215,80 @@ def tb(out):
 '''
 
 
+HOSTCOND_SRC = '''
+class Inv:
+    def __init__(self):
+        self.lock = RLock()
+        self.n = 0
+    def size(self):
+        with self.lock:
+            return self.n
+    def add(self, out):
+        with self.lock:
+            self.n += 1
+            audit2(self, out)
+
+INV = Inv()
+
+def audit2(inv, out):
+    y = 1
+    out.append(('audited', y))
+
+def tc(n, out):
+    for i in range(n):
+        audit2(INV, out)
+
+def td(n, out):
+    for i in range(n):
+        INV.add(out)
+'''
+
+
+def _hostcond(s, ch):
+    """The tracepoint's condition reads the application's state through the application's own (re-entrant) lock; one
+    thread reaches the tracepoint holding that lock, the other without it.  Without the agent nobody waits for two
+    locks; a lock of the agent held while the condition is evaluated closes the cycle."""
+    viol = []
+    info = {"pushed": 0}
+
+    def main(k):
+        p = hostgen.start_program("simcond", prelude=False)
+        for ln in HOSTCOND_SRC.strip("\n").split("\n"):
+            p.lines.append(ln)
+        p.finish()
+        line = next(i + 1 for i, t in enumerate(p.lines) if t.strip() == "y = 1")
+        w = world.World(k, python_plugin=False, plugins=[{"name": "RecLog", "kinds": ["logger"]}])
+        rec = host.Recorder(k).attach(w)
+        rec.install()
+        w.start()
+        k.settle()
+        args = {"fire_count": "-1", "fire_period": "0", "condition": "inv.size() >= 0", "log_msg": "audit", "snapshot": "no_collect"}
+        w.service.set_config([w.service.make_tp("cd", p.basename, line, args, [])], "h1")
+        w.deep.poll.poll()
+        common.wait_until(k, lambda: len(w.handler._tp_config) > 0, 30)
+        g = p.load({"RLock": shims.SimRLock})
+        n = s.get("rounds", 3)
+        outs = [[], []]
+        fns = [lambda: g["tc"](n, outs[0]), lambda: g["td"](n, outs[1])]
+        if s["order"] == "a-first":
+            fns.reverse()
+            outs.reverse()
+        k.fault("host_lock_held_at_tracepoint")
+        host.run_threads(k, fns)
+        info["pushed"] = len([c for c in w.sink.calls if c[2] == "log_tracepoint"])
+        for r_ in rec.raised:
+            viol.append(V("trace-call-raised:%s@%s" % (r_[5], r_[1]), "exception left trace_call: %s" % (r_,)))
+        if [len(o) for o in outs] != [n, n]:
+            viol.append(V("host-output-differs", str(outs)))
+        w.close()
+
+    k = common.run_in_kernel(ch, s["knobs"], main)
+    return common.result(k, viol, key=repr((s["kind"], s["order"], k.order_sig.hexdigest()[:8])) if info["pushed"] else None)
+
+
 def _hostlock(s, ch):
+    if s["kind"] == "cond":
+        return _hostcond(s, ch)
     """A thread-safe class of the application (its __repr__ takes the object's own lock); one thread audits an object
     another thread has locked while that thread reaches the same tracepoint.  Without the agent nobody ever waits for
     two locks; with it, a lock of the agent held while application code runs closes the cycle."""
